@@ -114,7 +114,7 @@ const META: &[char] = &[
 ];
 const LATIN1: &[char] = &['é', 'ß', '\u{80}', '\u{ff}', '\u{7f}', '\u{a0}'];
 const BMP: &[char] = &[
-    'ঀ', '⏰', '\u{ffff}', '\u{fffd}', '中', '\u{2028}', '\u{0800}', '\u{07ff}', '\u{d7ff}',
+    '\u{f600}', '\u{d11e}', '\u{1}', 'ঀ', '⏰', '\u{ffff}', '\u{fffd}', '中', '\u{2028}', '\u{0800}', '\u{07ff}', '\u{d7ff}',
     '\u{e000}',
 ];
 const NONBMP: &[char] = &['😀', '\u{10000}', '\u{10ffff}', '𝄞', '\u{1F9D1}', '\u{e0001}'];
@@ -154,9 +154,9 @@ impl<'a> G<'a> {
             // under Custom strategies only those free of '.' and '[' (a member called "$" is
             // addressed as "$.$", its child x as "$.$.x")
             if self.cfg.safe_names {
-                return (*self.r.pick(&["", " ", "0", "$", "~", "$ref", "$id", "$$", "*", "-1", "{value}", "{name}", "{}", "%s", "1"])).to_string();
+                return (*self.r.pick(&["", " ", "0", "$", "~", "$ref", "$id", "$$", "*", "-1", "{value}", "{name}", "{}", "%s", "1", "_sd_note", "_sdk_version", "_sdr", "kty"])).to_string();
             }
-            return (*self.r.pick(&["", " ", "0", "$", "~", ".", "[0]", "a.b", "$.x", "$ref", "{value}", "{name}", "{salt}", "{0}", "%s", "$1", "1"])).to_string();
+            return (*self.r.pick(&["", " ", "0", "$", "~", ".", "[0]", "a.b", "$.x", "$ref", "{value}", "{name}", "{salt}", "{0}", "%s", "$1", "1", "...etc", "....", "..", "_sd_note", "_sdk_version", "kty"])).to_string();
         }
         if name && self.r.chance(3) {
             // names that only LOOK like reserved / registered ones (none of them is reserved)
@@ -169,7 +169,7 @@ impl<'a> G<'a> {
         if self.cfg.profile == Profile::Boundary && self.r.chance(40) {
             // byte length exactly at / next to a power of two, built from 1-, 2-, 3- or 4-byte
             // characters, with one character of another width at a random place
-            let target = *self.r.pick(&[0usize, 1, 2, 3, 15, 16, 17, 31, 32, 33, 63, 64, 65, 127, 128, 129, 255, 256, 257]);
+            let target = *self.r.pick(&[0usize, 1, 2, 3, 15, 16, 17, 31, 32, 33, 63, 64, 65, 127, 128, 129, 255, 256, 257, 509, 510, 511, 512, 513, 1023, 1024, 1025, 4095, 4096, 4097]);
             let base = *self.r.pick(&['a', 'é', '€', '😀']);
             let mut s = String::new();
             while s.len() + base.len_utf8() <= target {
@@ -325,6 +325,7 @@ impl<'a> G<'a> {
                         "...", "_sd", "_sd_alg", "sha-256", "cnf", "jwk", "kb+jwt", "sd_hash", "null", "true", "false", "0", "[]", "{}", "~", ".", "$", "$.a",
                         "\"", "\\", "\\u0000", "e30", "W10", "eyJhbGciOiJub25lIn0", "a~b", "a.b.c", "=",
                         // JSON text that, if parsed, would contain reserved member names
+                        "19\" rack, part 2e4", "27\" 7f3e8a21", "1e5\"2e4\"3E-2", "EC", "OKP",
                         "{\"_sd\":[\"abc\"]}", "[{\"...\":\"x\"}]", "{\"...\":1,\"_sd_alg\":\"md5\"}", "[\"s\",\"_sd\",1]", "12345", "-7", "1e5",
                     ]))
                     .to_string())
@@ -386,7 +387,7 @@ impl<'a> G<'a> {
             if self.r.chance(4) {
                 // nested members that merely share their name with a registered JWT claim are
                 // ordinary claims (only the TOP-LEVEL iss / iat / exp are always visible)
-                let reg = *self.r.pick(&["iss", "iat", "exp", "sub", "nbf", "aud", "cnf", "jti"]);
+                let reg = *self.r.pick(&["iss", "iat", "exp", "sub", "nbf", "aud", "cnf", "jti", "kty", "crv", "alg"]);
                 if !m.contains_key(reg) {
                     name = reg.to_string();
                 }
@@ -530,7 +531,12 @@ pub fn gen_claims(r: &mut Rng, cfg: &GenCfg) -> Value {
     let mut entries: Vec<(String, Value)> = vec![];
     let exp = cfg.now + 3600 + g.r.below(4_102_444_800 - cfg.now - 3600);
     entries.push(("iss".into(), json!(cfg.iss)));
-    entries.push(("exp".into(), json!(exp)));
+    if g.r.chance(2) {
+        // integer instants far beyond 2100, up to the limits of the integer types
+        entries.push(("exp".into(), g.r.pick(&[json!(u64::MAX), json!(9_223_372_036_854_775_808u64), json!(i64::MAX), json!(253_402_300_800u64), json!(u32::MAX as u64 + 1)]).clone()));
+    } else {
+        entries.push(("exp".into(), json!(exp)));
+    }
     if g.r.chance(50) {
         // iat is an ordinary always-visible claim: past, present, post-dated, epoch, fractional
         let iat = match g.r.below(10) {
@@ -598,6 +604,19 @@ pub fn gen_claims(r: &mut Rng, cfg: &GenCfg) -> Value {
     g.prefix_sibling(&mut m);
     g.lookalike_sibling(&mut m);
     g.child_named_like_parent(&mut m);
+    if g.r.chance(4) {
+        // the same multi-member object twice in one claim set (billing = shipping address), the
+        // second copy sometimes with its members in another order, sometimes both inside one array
+        let a = json!({"street": "Heidestr. 17", "city": "K\u{f6}ln", "zip": "51147", "country": "DE", "kty": "EC"});
+        let b = if g.r.chance(50) { a.clone() } else { json!({"kty": "EC", "country": "DE", "zip": "51147", "city": "K\u{f6}ln", "street": "Heidestr. 17"}) };
+        let (t1, t2) = (g.tag(), g.tag());
+        if g.r.chance(70) {
+            m.insert(format!("billing{t1}"), a);
+            m.insert(format!("shipping{t2}"), b);
+        } else {
+            m.insert(format!("addresses{t1}"), json!([a, b, [1, 2], [1, 2]]));
+        }
+    }
     Value::Object(m)
 }
 
